@@ -155,16 +155,18 @@ def run_cell(res, oname, slow, method, con, situation):
         w.add_peer(AutoAck("p1", *P1))
         paths = {"known": [b"known"], "unknown": [b"nowhere"], "unknown-root": [], "unknown-deep": [b"known", b"deeper"],
                  "unknown-slash": [b"known", b""], "unimplemented": [b"getonly"], "nosite": [b"known"],
-                 "obs-declined": [b"known"], "obs-accepted": [b"known"]}[situation]
+                 "obs-declined": [b"known"], "obs-accepted": [b"known"]}.get(situation, [b"known"])
         tok = b"\xC9\x01"
         obs = [(6, b"")] if situation.startswith("obs-") else []    # a registration attempt at an observable resource
-        w.inject(P1, SRV, rc.encode((rc.CON if con else rc.NON, method, 0x3001, tok, obs + [(11, p) for p in paths], b"")))
+        nr = int(situation[2:]) if situation.startswith("nr") else None
+        nropt = [(258, rc.uint(nr))] if nr is not None else []
+        w.inject(P1, SRV, rc.encode((rc.CON if con else rc.NON, method, 0x3001, tok, obs + [(11, p) for p in paths] + nropt, b"")))
         serve(w, 3.0)
         case = {"outcome": oname, "slow": slow, "method": method, "con": con, "situation": situation}
         res.evaluations += 1
         res.traces += 1
         fin = finals(w, P1, tok)
-        if situation in ("known", "obs-declined", "obs-accepted"):
+        if situation in ("known", "obs-declined", "obs-accepted") or nr is not None:
             if exp == "default":
                 want = (default_code(method), b"")
             elif exp == "bare500":
@@ -179,6 +181,12 @@ def run_cell(res, oname, slow, method, con, situation):
             want = (132, None)
         got = [(m[1], m[5]) for m in fin]
         ok = len(fin) == 1 and fin[0][1] == want[0] and (want[1] is None or fin[0][5] == want[1])
+        if nr is not None and nr & (1 << ((want[0] >> 5) - 1)):
+            # RFC 7967: the response class is not wanted - nothing carrying the token is sent (a CON still gets its empty ACK)
+            ok = not fin
+            acks = [d for d in w.sent if d.src == SRV and d.dst == P1 and d.data[0] & 0x30 == 0x20 and d.data[2:4] == b"\x30\x01"]
+            if con and len(acks) != 1:
+                ok = False
         if ok and exp == "bare500" and situation in ("known", "obs-declined", "obs-accepted") and fin[0][4]:
             ok = False
         if not ok:
@@ -244,7 +252,7 @@ def token_reuse(res, con, gap):
         w.dispose()
 
 
-def slow_pair(res, first, second, ack_delay):
+def slow_pair(res, first, second, ack_delay, reaction="ack"):
     """Two CON requests of one peer whose handlers both outlast EMPTY_ACK_DELAY; the peer acknowledges the first separate
     response late, so that the second one has to wait in line: each request still gets exactly one final response."""
     global OUTCOMES
@@ -265,14 +273,16 @@ def slow_pair(res, first, second, ack_delay):
                 w.pool.remove(dg)
                 m = rc.decode(dg.data, check_formats=False)
                 if m[0] == rc.CON and m[1] >= 64 and m[2] not in acked and w.loop.time() >= dg.t:
-                    acked.add(m[2])
                     w.loop.advance(ack_delay)
-                    w.inject(P1, SRV, rc.encode((rc.ACK, 0, m[2], b"", [], b"")))
+                    # the peer rejects the first separate response it sees with a Reset (it has lost interest in that request)
+                    rt = rc.RST if (reaction == "rst" and not acked) else rc.ACK
+                    acked.add(m[2])
+                    w.inject(P1, SRV, rc.encode((rt, 0, m[2], b"", [], b"")))
             tn = w.loop.next_timer()
             if tn is None or tn > t_end:
                 break
             w.loop.fire_next_timer()
-        case = {"slow_pair": [first, second, ack_delay]}
+        case = {"slow_pair": [first, second, ack_delay, reaction]}
         res.evaluations += 1
         res.traces += 1
         for tok, o in ((b"\x61", first), (b"\x62", second)):
@@ -344,12 +354,14 @@ def job(arg):
             for second in ("ret-payload", "raise-RuntimeError", "raise-Forbidden-text"):
                 for ack_delay in (0.0, 0.2, 2.5):
                     slow_pair(res, first, second, ack_delay)
+                    slow_pair(res, first, second, ack_delay, reaction="rst")
     elif kind == "reuse-deep":
         for it in items:
             if it[0] == "reuse":
                 token_reuse(res, it[1], it[2])
             else:
                 slow_pair(res, it[1], it[2], it[3])
+                slow_pair(res, it[1], it[2], it[3], reaction="rst")
         res.sample({"deep": list(items[0])})
     else:
         base, _ = isolation_run(None, 0, P1, False)
@@ -385,6 +397,11 @@ def run(tier, seed, jobs):
             for con in (True, False):
                 cells.append((oname, slow, 1, con, "obs-declined"))
                 cells.append((oname, slow, 1, con, "obs-accepted"))
+    for oname in names:
+        for slow in (False, True):
+            for con in (True, False):
+                for nr in (2, 8, 16, 26):
+                    cells.append((oname, slow, 1, con, "nr%d" % nr))
     for method in METHODS:
         for con in (True, False):
             cells.append(("ret-empty", False, method, con, "unknown"))
